@@ -107,6 +107,9 @@ func (stageComp) Corpus() [][]string {
 		// crash images of a complete reception + pipeline
 		{"base ?", "recover 0", "prepare a 3 0", "cut 2 recv a - - 3 b1.2.3 0 3 1.2.3 0", "observe", "recover 0", "settle 0", "observe"},
 		{"base ?", "recover 0", "prepare a 3 0", "recv a - - 3 b1.2.3 0 3 1.2.3 0", "process a 0", "cut 2 finh a 0", "observe", "recover 0", "settle 0", "observe", "status a 0 0"},
+		// a file that failed validation is sent again: the listing must not claim what the failed attempt had recorded
+		{"base ?", "recover 0", "prepare x.y 3 0", "recv x.y - - 3 b100.62.16 0 2 100.62 0", "recv x.y - - 3 b100.62.16 2 3 16 0", "corrupt x.y full 0 253", "settle 0",
+			"status x.y 0 0", "prepare x.y 3 0", "scan", "recv x.y - - 3 b100.62.16 0 2 100.62 0", "scan", "observe", "recv x.y - - 3 b100.62.16 2 3 16 0", "settle 0", "observe", "status x.y 0 0"},
 		// the stray cleaner and a stale partial of a NEW version of a name whose earlier delivery is known only from the log
 		{"base ?", "oldlog w.nc - b164.109.153.172.239.246.250.111 8 -260002", "recover 0", "prepare w.nc 2 14", "recv w.nc - - 2 b90.244 0 1 90 15",
 			"chtime w.nc part -400000", "observe", "cleanstrays 16", "observe", "scan"},
